@@ -61,6 +61,26 @@ class TariffTranslator(py2coq.FnTranslator):
                     self.err(node, "tuple of non-numbers")
                 items.append(s)
             return ("[" + "; ".join(items) + "]", "zlist")
+        if isinstance(node, ast.List) and node.elts and all(
+                isinstance(e, ast.Constant) and isinstance(e.value, bool) for e in node.elts):
+            return ("[" + "; ".join("true" if e.value else "false" for e in node.elts) + "]", "boollist")
+        if isinstance(node, ast.BinOp) and isinstance(node.op, (ast.Mult, ast.Add)) and isinstance(
+                node.left, (ast.List, ast.BinOp)):
+            # [True] * 5 + [False] * 2
+            try:
+                a, ta = self.expr(node.left, env)
+            except Untranslatable:
+                ta = None
+            if ta == "boollist":
+                if isinstance(node.op, ast.Mult):
+                    if not (isinstance(node.right, ast.Constant) and isinstance(node.right.value, int)
+                            and not isinstance(node.right.value, bool) and 0 <= node.right.value <= 64):
+                        self.err(node, "list repetition count")
+                    return ("(List.concat (List.repeat %s %d))" % (a, node.right.value), "boollist")
+                b, tb = self.expr(node.right, env)
+                if tb != "boollist":
+                    self.err(node, "list + non-list")
+                return ("(%s ++ %s)%%list" % (a, b), "boollist")
         if isinstance(node, ast.Subscript):
             v, tv = self.expr(node.value, env)
             if tv == "boollist":
@@ -127,6 +147,14 @@ Z_ANCHORS = [
     # s.end < s.start   (the wrap-around test of the constructor)
     dict(name="Tariff_wraps", file=TOU, qual="TimeOfUseTariff.__init__",
          expr_path="body[5].body[0].test", types={"s.start": "zlist", "s.end": "zlist"}),
+    # s_copy.start = (1, 1) ; s.end = (12, 31)
+    dict(name="Tariff_wrap_copy_start", file=TOU, qual="TimeOfUseTariff.__init__", expr_path="body[5].body[0].body[1].value"),
+    dict(name="Tariff_wrap_orig_end", file=TOU, qual="TimeOfUseTariff.__init__", expr_path="body[5].body[0].body[3].value"),
+    # the three weekday masks of TariffSchedule.__init__
+    dict(name="Tariff_mask_weekdays", file=TOU, qual="TariffSchedule.__init__", expr_path="body[3].body[0].value"),
+    dict(name="Tariff_mask_weekends", file=TOU, qual="TariffSchedule.__init__", expr_path="body[3].orelse[0].body[0].value"),
+    dict(name="Tariff_mask_all", file=TOU, qual="TariffSchedule.__init__",
+         expr_path="body[3].orelse[0].orelse[0].body[0].value"),
     # start + t * timedelta(minutes=period)   (instants in microseconds)
     dict(name="Tariff_step_time", file=TOU, qual="TimeOfUseTariff.get_tariffs",
          expr_path="body[1].value.elt.args[0]", types={"t": "num"}),
